@@ -112,8 +112,12 @@ func gen(t *rapid.T) Case {
 	doneMode := rapid.SampledFrom([]string{"never", "never", "last", "random"}).Draw(t, "doneMode")
 	for i := 0; i < rows; i++ {
 		lv := rapid.IntRange(0, 8).Draw(t, fmt.Sprintf("level%d", i))
-		if rapid.IntRange(0, 2).Draw(t, fmt.Sprintf("mono%d", i)) == 0 {
+		switch rapid.IntRange(0, 7).Draw(t, fmt.Sprintf("mono%d", i)) {
+		case 0, 1, 2:
 			lv = i // a monotone stretch
+		case 3:
+			// the extremes: LevelNotSet (-1) itself, below it, far above
+			lv = rapid.SampledFrom([]int{gorums.LevelNotSet, gorums.LevelNotSet, -7, 1 << 40}).Draw(t, fmt.Sprintf("xlevel%d", i))
 		}
 		d := false
 		switch doneMode {
@@ -144,7 +148,7 @@ func gen(t *rapid.T) Case {
 	nw := rapid.IntRange(0, 5).Draw(t, "nwatch")
 	for i := 0; i < nw; i++ {
 		pos := rapid.IntRange(0, len(steps)).Draw(t, fmt.Sprintf("wpos%d", i))
-		steps = insertStep(steps, pos, Step{Op: "watch", Level: rapid.IntRange(0, 9).Draw(t, fmt.Sprintf("wlevel%d", i))})
+		steps = insertStep(steps, pos, Step{Op: "watch", Level: rapid.SampledFrom([]int{0, 1, 2, 3, 4, 5, 6, 7, 8, 9, 0, 1, 2, 3, 4, 5, -1, -7, 1 << 40, 1<<40 + 1}).Draw(t, fmt.Sprintf("wlevel%d", i))})
 	}
 	if c.Call.Ctx == "cancel" && rapid.IntRange(0, 2).Draw(t, "doCancel") == 0 {
 		pos := rapid.IntRange(0, len(steps)).Draw(t, "cancelPos")
@@ -676,7 +680,7 @@ func classes(c Case, m model, nonMonotone, ctxBetween bool) []string {
 func TestProp(t *testing.T) {
 	vt.Main(t, vt.Spec[Case]{
 		ID:           "C11",
-		Rule:         "rapid-generated cases: a correctable or server-stream correctable call (plain, per-node, custom return type, both) on 1-5 nodes; per node a reply / error / silence (streams: 0-4 individually gated replies, then failure, normal end or silence); a level script mapping the invocation index to (level 0..8, done) - arbitrary, non-monotone, repeated, done anywhere or nowhere; an optional cancellation at any position; in a quarter of the cases one node's server is stopped at a generated position (before it answered: the node has failed; after it answered: the call must not hear of the node again); Watch(l) channels created at generated moments; after every step the correctable is observed (Get, typed Get under recover, Done, all watchers) and compared with a reference model driven by the recorded quorum-function invocations: publish on strictly higher level, final on done / exhaustion / context end, watchers at or below the published level released and the others open, nothing changes after completion, levels never decrease; non-trivial = at least 2 distinct published levels before completion, or a non-monotone script, or a custom return type, or a context end between two publications",
+		Rule:         "rapid-generated cases: a correctable or server-stream correctable call (plain, per-node, custom return type, both) on 1-5 nodes; per node a reply / error / silence (streams: 0-4 individually gated replies, then failure, normal end or silence); a level script mapping the invocation index to (level, done) with levels 0..8 and, in an eighth of the rows, an extreme (LevelNotSet = -1, -7, 2^40) - arbitrary, non-monotone, repeated, done anywhere or nowhere; an optional cancellation at any position; in a quarter of the cases one node's server is stopped at a generated position (before it answered: the node has failed; after it answered: the call must not hear of the node again); Watch(l) channels created at generated moments; after every step the correctable is observed (Get, typed Get under recover, Done, all watchers) and compared with a reference model driven by the recorded quorum-function invocations: publish on strictly higher level, final on done / exhaustion / context end, watchers at or below the published level released and the others open, nothing changes after completion, levels never decrease; non-trivial = at least 2 distinct published levels before completion, or a non-monotone script, or a custom return type, or a context end between two publications",
 		Gen:          gen,
 		Run:          run,
 		TrackCurrent: true,
